@@ -131,8 +131,46 @@ def check(name, pids=None):
     return {'name': name, 'results': results}
 
 
+def pcheck_one(name):
+    """like check(), but on a scratch copy of /repo's sources (so that many can run at once and /repo is never touched)"""
+    import tempfile
+    d = os.path.join(SEEDED, name)
+    meta = json.load(open(os.path.join(d, 'meta.json')))
+    pid = meta['property']
+    t = tempfile.mkdtemp(prefix='blochsa-seed-')
+    try:
+        sh('cp -r %s/src %s/docs %s/CMakeLists.txt %s/' % (REPO, REPO, REPO, t))
+        rc, out = sh('patch -p1 -s < %s' % os.path.join(d, 'patch.diff'), cwd=t)
+        if rc != 0:
+            return {'name': name, 'error': 'patch does not apply: ' + out[-300:]}
+        env = dict(os.environ, BLOCH_REPO=t, BLOCHSA_EVIDENCE_DIR=os.path.join(t, 'ev'))
+        r = subprocess.run([os.path.join(VERIF, 'check'), pid, '--tier', 'quick'], capture_output=True, text=True, env=env)
+        lines = r.stdout.splitlines()
+        viol = [lines[i + 1].strip() for i, l in enumerate(lines) if l.startswith('VIOLATION') and i + 1 < len(lines)]
+        res = {pid: {'rc': r.returncode, 'violations': viol[:6], 'broken': [l for l in lines if l.startswith('ANALYSIS-BROKEN')]}}
+    finally:
+        shutil.rmtree(t, ignore_errors=True)
+    meta['detected_by'] = res
+    meta['detected'] = any(x['rc'] == 1 for x in res.values())
+    json.dump(meta, open(os.path.join(d, 'meta.json'), 'w'), indent=1)
+    return {'name': name, 'results': res}
+
+
 if __name__ == '__main__':
     cmd = sys.argv[1]
+    if cmd == 'pcheck':
+        from concurrent.futures import ThreadPoolExecutor
+        names = sorted(os.listdir(SEEDED)) if sys.argv[2:] in ([], ['all']) else sys.argv[2:]
+        bad = 0
+        with ThreadPoolExecutor(max_workers=int(os.environ.get('JOBS', '8'))) as ex:
+            for r in ex.map(pcheck_one, names):
+                rs = r.get('results', {})
+                ok = any(x['rc'] == 1 for x in rs.values())
+                if not ok:
+                    bad += 1
+                print('%-8s %s %s' % (r['name'], 'detected' if ok else 'NOT DETECTED', r.get('error') or ' | '.join((x['violations'] or x['broken'] or ['rc=%d' % x['rc']])[0][:110] for x in rs.values())), flush=True)
+        print('not detected: %d of %d' % (bad, len(names)))
+        sys.exit(1 if bad else 0)
     if cmd == 'verify':
         demo_arg = 'bin'
         args = sys.argv[2:]
